@@ -119,6 +119,8 @@ pub enum POp {
     Take,
     /// poll live task #k (mod live) once; it may stop at a yield point
     Poll { k: usize },
+    /// poll the oldest live task whose name starts with `kind` once (it may stop at a yield point)
+    PollKind { kind: String },
     /// run every task and everything queued to completion
     Quiesce,
     /// ask for a block template now, seal it, feed it to the chain stages
@@ -273,6 +275,44 @@ pub fn generate(seed: u64, prop: &str) -> PoolScenario {
         }
         sk.push(POp::Quiesce);
         sk.extend(ops.drain(..).take(30));
+        ops = sk;
+    }
+    if prop == "C13" && r.chance(1, 3) {
+        // "template between the two halves of a reorg" skeleton: two transactions reach the proposed
+        // stage, one is removed by RPC, a competing branch detaches the proposing blocks; the reorg
+        // task is stopped after it has reset the template to the new tip and before the pool has
+        // been reorganised; the removed transaction is submitted again (still "proposed" in the
+        // pool's old view), the block assembler handles the resulting notification, and a template
+        // is requested
+        let mut sk = Vec::new();
+        let a = 0usize;
+        let b = 1usize.min(ntx - 1);
+        sk.push(POp::Submit { t: a, remote: false });
+        sk.push(POp::Submit { t: b, remote: false });
+        sk.push(POp::Quiesce);
+        // block 1 proposes both; after w_close blocks they are "proposed" and not yet committed
+        let mines = cfg.w_close;
+        for _ in 0..mines {
+            sk.push(POp::Mine);
+            sk.push(POp::Quiesce);
+        }
+        sk.push(POp::Remove { t: b });
+        sk.push(POp::Quiesce);
+        sk.push(POp::Fork { back: mines + r.range(0, 1), len: r.range(1, 3), seed: r.below(1 << 40) });
+        sk.push(POp::Take);
+        sk.push(POp::PollKind { kind: "reorg".into() });
+        sk.push(POp::Submit { t: b, remote: false });
+        for _ in 0..4 {
+            sk.push(POp::PollKind { kind: "submit".into() });
+        }
+        sk.push(POp::Take);
+        for _ in 0..r.urange(1, 3) {
+            sk.push(POp::PollKind { kind: "block_assembler".into() });
+        }
+        sk.push(POp::Mine);
+        sk.push(POp::Quiesce);
+        sk.push(POp::Mine);
+        sk.extend(ops.drain(..).take(40));
         ops = sk;
     }
     if prop == "C04" {
@@ -893,6 +933,22 @@ impl PoolExec {
                 self.ev(&format!("poll {name} done={done}"));
                 self.check_dump("poll");
             }
+            POp::PollKind { kind } => {
+                let Some(i) = self.tasks.iter().position(|t| t.name.starts_with(kind.as_str())) else { return };
+                self.il.write_u64(0x60 + i as u64);
+                let yields_before = pv::yield_count();
+                let done = self.poll_task(i, true);
+                if pv::yield_count() > yields_before {
+                    self.res.faults.inc("task_suspended_at_yield_point");
+                    self.res.nontrivial = true;
+                }
+                let name = self.tasks[i].name.clone();
+                if done {
+                    self.tasks.remove(i);
+                }
+                self.ev(&format!("poll {name} done={done}"));
+                self.check_dump("poll");
+            }
             POp::Quiesce => {
                 self.il.write_u64(5);
                 self.quiesce();
@@ -992,8 +1048,13 @@ impl PoolExec {
                         self.res.harness_error = Some(format!("node accepted a template the model rejects: {e}"));
                     }
                 } else {
-                    // stored as a side block: nothing was verified
+                    // stored as a side block: the node verified nothing. The template must still be a
+                    // valid block on the parent it names: the reference model judges it alone here.
                     self.stale_templates += 1;
+                    if let Err(e) = &model {
+                        let reason: String = e.chars().map(|c| if c.is_ascii_digit() { '#' } else { c }).collect();
+                        self.viol("C13", &format!("stale_parent_template_invalid:{}", reason.split(':').next().unwrap_or("")), format!("template n={} names parent {} (no longer the tip) and is not a valid block on that parent: {e}", view.number(), hex(&view.parent_hash())));
+                    }
                 }
             }
             Some(Ok(false)) => {}
